@@ -160,8 +160,13 @@ def extract_fn(src: Source, item: Item, stub=False):
         if spec.get('decreases'):
             parts.append(('    decreases %s,\n' % spec['decreases'], 'decreases', 'loop%d.decreases' % ordinal))
         inserts.append((lbo, parts))
-    for anchor, htext, where in item.hints:
+    for h in item.hints:
+        anchor, htext, where = h[0], h[1], h[2]
+        optional = len(h) > 3 and h[3] == 'optional'
         ms = [m for m in re.finditer(anchor, text[bo:en])]
+        if len(ms) == 0 and optional:
+            # the hint supports the proof of the very statement it is anchored on; without the statement it is not needed
+            continue
         if len(ms) != 1:
             raise ScanError('%s: hint anchor %r matched %d times' % (item.id, anchor, len(ms)))
         m = ms[0]
